@@ -73,7 +73,9 @@ Check(c, s, i, o) ==
        THEN <<"metrics", "a processed sample must emit one RTT, one in-flight and a drop increment iff drop">>
   ELSE <<>>
 
-ProbeBound(c, s) == IF c.probemax < 0 THEN c.inc * Max(s.maxest, 1) + 1 ELSE c.probemax
+(* Vegas decides per sample from the current estimate: a sample is not a probe only while the samples since the last   *)
+(* reset are fewer than jitter (< 1) x multiplier x estimate, estimate < reported integer + 1                          *)
+ProbeBound(c, s) == IF c.probemax < 0 THEN c.inc * (s.est + 1) - 1 ELSE c.probemax
 
 After(c, s, i, o) ==
   LET reset == o.probe \/ ~o.baseset IN
